@@ -77,7 +77,7 @@ def make(shape, exponent, sign, boundary=None, reach=False, wide_battery=False, 
                 ex.check(z3.Or(s == 0, z3.And(s >= d.i_excl[k] - tol, s <= d.i_incl[k] + tol)),
                          f"inverter {iid} set-point outside its inclusion bounds or inside its exclusion zone")
             drop = E(dropped.get(frozenset(G.inv_ids), 0.0))
-            known = (KF_SPLIT, drop > tol) if len(G.inv_ids) > 1 else None
+            known = (KF_SPLIT, drop > 0) if len(G.inv_ids) > 1 else None   # any unplaced rest (the given-power check below bounds what is masked)
             ex.check(z3.Or(tot == 0, z3.And(tot >= d.b_excl - tol, tot <= d.b_incl + tol)),
                      f"group {G.bat_ids} total outside the battery inclusion bounds or inside its exclusion zone", known=known)
             if known is not None:
